@@ -39,8 +39,11 @@ macro_rules! lcm_signed {
             let b: $t = kani::any();
             kani::assume(a >= -$bound && a <= $bound && b >= -$bound && b <= $bound);
             kani::assume(!(a == 0 && b == 0));
-            kani::assume(((a as $w) * (b as $w)) <= <$t>::MAX as $w && ((a as $w) * (b as $w)) >= -(<$t>::MAX as $w));
             let g = gcd(a, b);
+            // precondition: the mathematical result |a|/g*|b| fits the type (the product a*b need not)
+            let aw = if a < 0 { -(a as $w) } else { a as $w };
+            let bw = if b < 0 { -(b as $w) } else { b as $w };
+            kani::assume(g != 0 && (aw / (g as $w)) * bw <= <$t>::MAX as $w);
             let l = lcm(a, b);
             assert!(l >= 0, "lcm is non-negative");
             let ab = (a as $w) * (b as $w);
@@ -74,7 +77,8 @@ macro_rules! gcd_unsigned {
                 let d: $t = kani::any();
                 kani::assume(d > g && d <= $bound);
                 assert!(!(a % d == 0 && b % d == 0), "no larger common divisor");
-                kani::assume((a as $w) * (b as $w) <= <$t>::MAX as $w);
+                // precondition: the lcm itself fits the type (the product a*b need not)
+                kani::assume(((a as $w) / (g as $w)) * (b as $w) <= <$t>::MAX as $w);
                 let l = lcm(a, b);
                 assert!((l as $w) * (g as $w) == (a as $w) * (b as $w), "lcm * gcd = a*b");
             }
@@ -92,6 +96,8 @@ lcm_signed!(c11_lcm_i16, i16, i32, 31, 12);
 lcm_signed!(c11_lcm_i32, i32, i64, 31, 12);
 lcm_signed!(c11_lcm_i64, i64, i128, 31, 12);
 gcd_unsigned!(c11_gcd_u8, u8, u32, 31, 12);
+gcd_unsigned!(c11_gcd_u8_b100, u8, u32, 100, 14);
+lcm_signed!(c11_lcm_i8_b100, i8, i32, 100, 14);
 gcd_unsigned!(c11_gcd_u16, u16, u32, 31, 12);
 gcd_unsigned!(c11_gcd_u32, u32, u64, 31, 12);
 gcd_unsigned!(c11_gcd_u64, u64, u128, 31, 12);
